@@ -62,6 +62,13 @@ def lint_a_fixture_matches() -> bool:
   return len(c.bads) == 1
 
 
+def lint_j_fixture_matches() -> bool:
+  from .rules import lint
+  c = _NullCtx(_FakeIndex())
+  c.where = lambda mod, n: "fixture"
+  return lint.handler_around_loop(c, [fixture_module("lint_j.py")]) == 1 and len(c.bads) == 1
+
+
 def lint_b_fixture_matches() -> bool:
   from .rules import lint
 
